@@ -399,6 +399,8 @@ Inductive life_op :=
 | LUnsub (k : Z) (fs : list string)
 | LDrop (k : Z) (poke : bool) (eof : bool)      (* close the socket / DISCONNECT, or (poke) send PINGREQ and see whether the broker cuts the connection *)
 | LAdmin (cid : string)
+| LWatchLoss (listing_fails : bool) (closed : bool)  (* the delete-watch was lost, a session deleted in the gap, the watch re-established
+                                                        (catch-up listing failing once or not): was that session's client closed? *)
 | LKeepalive (ka : Z) (dl_ms : Z)                (* a throw-away client with this keep-alive: the read deadline the broker armed, in ms (-1 none) *)
 | LExtPut (cid : string) (tp : topics)          (* a persistent session written straight into the store (another broker instance) *)
 | LPub (topic : string) (row : list (string * bool)) (recv : list Z).
@@ -416,6 +418,7 @@ Definition life_events (o : life_op) : list ev :=
   | LAdmin cid => [AdminDelete cid]
   | LExtPut cid tp => [StorePut cid tp]
   | LKeepalive _ _ => []
+  | LWatchLoss _ _ => []
   | LPub _ _ _ => []
   end.
 
@@ -461,6 +464,7 @@ Definition keepalive_ok (ka dl : Z) : bool :=
 Definition op_agrees (st_before st_after : state) (o : life_op) : bool :=
   match o with
   | LKeepalive ka dl => keepalive_ok ka dl
+  | LWatchLoss _ closed => closed      (* deleting a session disconnects that client, also when the notification was missed *)
   | LPub topic row recv =>
       zseteq (receivers (mqtt_matches topic) st_after) recv &&
       forallb (fun '(f, b) => Bool.eqb b (mqtt_matches topic f)) row
@@ -555,6 +559,7 @@ Definition spec_step (sp : list (string * spec_cid)) (o : life_op) : list (strin
           end
       end
   | LKeepalive _ _ => sp
+  | LWatchLoss _ _ => sp
   | LExtPut cid tp =>
       let x := spec_get sp cid in
       match sp_cur x, sp_zombie x with
@@ -599,6 +604,7 @@ Definition spec_holds (sn : snap) (sp : list (string * spec_cid)) : bool :=
 Definition spec_op_holds (sp_before sp_after : list (string * spec_cid)) (sn : snap) (o : life_op) : bool :=
   match o with
   | LKeepalive ka dl => keepalive_ok ka dl
+  | LWatchLoss _ closed => closed      (* deleting a session disconnects that client, also when the notification was missed *)
   | LAdmin cid =>
       (* deleting the session disconnects the client *)
       match sp_cur (spec_get sp_before cid) with
@@ -620,7 +626,14 @@ Fixpoint life_prop (sp : list (string * spec_cid)) (steps : list (life_op * opti
   | [] => true
   | (o, sn) :: t =>
       let sp' := spec_step sp o in
-      match sn with Some x => spec_holds x sp' && spec_op_holds sp sp' x o | None => true end && life_prop sp' t
+      match sn with
+      | Some x => spec_holds x sp' && spec_op_holds sp sp' x o
+      | None => match o with                     (* checks that need no snapshot *)
+                | LWatchLoss _ closed => closed
+                | LKeepalive ka dl => keepalive_ok ka dl
+                | _ => true
+                end
+      end && life_prop sp' t
   end.
 
 Definition poke_of_live (st : state) (o : life_op) : bool :=
